@@ -291,12 +291,6 @@ theorem applyFresh_spec (w : Worker) (p : Probe) (now : Nat)
       simp only [Bool.not_false, if_true]
       exact ⟨hrun, hsta, fun hi => hidler hi hch, hupd⟩
 
-/-- The probe result is actually used to update `running`/`starting`: the run probe succeeded,
-the result is not the "nothing booted, nothing seen, nothing tracked" case, and the worker has
-not been updated since the probe began (the stale-probe guard). -/
-def probeFresh (w : Worker) (p : Probe) (now : Nat) : Bool :=
-  !(w.drainStep p now).probeFailed p && p.stamp == (w.drainStep p now).updated
-
 theorem probeFresh_stamp {w : Worker} {p : Probe} {now : Nat} (hlt : p.stamp < now)
     (h : probeFresh w p now = true) : p.stamp = w.updated ∧ p.ok = true := by
   unfold probeFresh at h
